@@ -46,7 +46,7 @@ Proof.
   rewrite Forall_forall in Hall. apply Hall. apply nth_In. unfold reg_ix in Hi. lia.
 Qed.
 
-Ltac exec3 calc_ok range_tac :=
+Ltac exec3t calc_tac range_tac :=
   let W := fresh "W" in let Hd := fresh "Hd" in let Ha := fresh "Ha" in let Hb := fresh "Hb" in
   intros W Hd Ha Hb;
   pose proof (wf_vm_flags _ W) as Hf;
@@ -56,13 +56,15 @@ Ltac exec3 calc_ok range_tac :=
   mstep ltac:(apply vm_load_register_ok; assumption);
   mstep reflexivity;
   mstep ltac:(apply vm_load_register_ok; assumption);
-  mstep ltac:(apply calc_ok; assumption);
+  mstep calc_tac;
   mstep ltac:(apply vm_set_zero_and_sign_ok; range_tac);
   mstep reflexivity;
   mstep ltac:(apply vm_store_register_ok; [exact Hl | assumption | exact Hwo]);
   mstep reflexivity;
   mstep reflexivity;
   reflexivity.
+
+Ltac exec3 calc_ok range_tac := exec3t ltac:(apply calc_ok; assumption) range_tac.
 
 Theorem exec_AND_ok s d a b : wf_vm s -> reg_ix d -> reg_ix a -> reg_ix b ->
   exec_AND [PI d; PI a; PI b] s = Ok (tt, step_AND d a b s).
